@@ -628,6 +628,9 @@ impl<'a> Ev<'a> {
             let t = ty_of(&args[0]).map(|t| format!("Option<{}>", t));
             return with_ty(json!({"k":"some","v":args[0]}), t);
         }
+        if matches!(fname.as_str(), "Vec::new" | "Vec::with_capacity" | "Vec::default" | "VecDeque::new") {
+            return json!({"k":"vecof","items":[],"ty":"Vec<?>","line":line_of(c)});
+        }
         let mut ty: Option<String> = None;
         if !fname.contains("::") {
             ty = self.idx.fns.get(&fname).cloned();
